@@ -164,6 +164,8 @@ def c11(pid, tier, replay):
     if not replay:
         from . import p_ctrt
         p_ctrt.run_lex_flags(res, "C11", tier)
+        from . import p_mm
+        p_mm.run(res, "C11", tier)
     for i in insts[:2]:
         res.sample(dict(id=i["id"], l=i["l"], flags_in_force=i["eff"]))
     res.assumptions += ["the regex crate decides what a regular expression matches; the documents are generated valid"]
